@@ -419,8 +419,11 @@ def _target_template(rnd, name, others, depth=0):
                 body.append(J.Out(J.Getattr(N("sub"), rnd.choice(["v", "m", "_p"]))))
             else:
                 body.append(J.Include(C(o), with_context=rnd.random() < 0.6))
-        elif r < 0.9:
+        elif r < 0.88:
             body.append(J.Out(J.Test(N(rnd.choice(vars_)), "defined")))
+        elif r < 0.94:
+            # a missing template inside an existing target: never excused by the outer `ignore missing`
+            body.append(J.Include(C("nope_inner"), with_context=rnd.random() < 0.5, ignore_missing=rnd.random() < 0.3))
         else:
             body.append(J.Text("t"))
     body.append(J.Text("]"))
@@ -465,7 +468,7 @@ def module_case(rnd, cid, auto=None):
     for i, tn in enumerate(tnames):
         tpls[tn] = J.template(_target_template(rnd, tn, tnames[i + 1:], 0), auto)
     body = [J.Text("M:")]
-    if rnd.random() < 0.5:
+    if rnd.random() < 0.35:
         body.append(J.Set("loc", C(1)))
     for _ in range(rnd.randint(1, 3)):
         site = _use_site(rnd, tnames)
@@ -483,6 +486,14 @@ def module_case(rnd, cid, auto=None):
             body.extend(site)
     if rnd.random() < 0.3:
         body.append(J.Out(N(rnd.choice(["v", "x", "m", "mod"]))))
+    if rnd.random() < 0.45:
+        # look the scope-local names up again through the context after their scopes have ended
+        tpls["show"] = J.template([J.Text("{show:"), J.Out(N("i")), J.Text("|"), J.Out(N("w")), J.Text("|"), J.Out(N("loc")),
+                                   J.Text("|"), J.Out(J.Test(N("i"), "defined")), J.Text("}")], auto)
+        body.append(rnd.choice([J.Include(C("show")), J.Include(C("show")),
+                                J.Import(C("show"), "shw", with_context=True)]))
+        if body[-1]["k"] == "import":
+            body.append(J.Out(N("shw")))
     tpls["main"] = J.template(body, auto)
     datas = []
     for _ in range(3):
@@ -653,8 +664,10 @@ def aiter_case(rnd, cid):
         r = rnd.random()
         if r < 0.45:
             inner = [J.Out(N("x"))]
-            if rnd.random() < 0.7:
-                inner.append(J.Out(J.Getattr(N("loop"), rnd.choice(["index", "first", "last", "length", "revindex", "nextitem", "previtem"]))))
+            for _ in range(rnd.choice([0, 1, 2, 2, 3])):
+                inner.append(J.Out(J.Getattr(N("loop"), rnd.choice(["index", "first", "last", "length", "revindex", "revindex0",
+                                                                     "nextitem", "previtem"]))))
+                inner.append(J.Text("/"))
             if rnd.random() < 0.3:
                 inner.append(J.If([J.Cmp(N("x"), ("eq", C(2)))], [[rnd.choice([J.BREAK, J.CONTINUE])]]))
             inner.append(J.Text(","))
